@@ -133,3 +133,35 @@ MUTANTS += [
  dict(id='c10-relay-distance', props=['C10'], file=U,
       old="        return int(m.group(1)) * leg", new="        return (int(m.group(1)) % 10) * leg"),
 ]
+
+I = 'athlib/implements.py'
+MUTANTS += [
+ # ---- C17 -----------------------------------------------------------------------
+ dict(id='c17-mass-lt-9', props=['C17'], file=I, old="    if mass < 99:  # kg", new="    if mass < 9:  # kg"),
+ dict(id='c17-no-int-collapse', props=['C17'], file=I, old="        mass = int(mass)  # 4.00 becomes integer 4", new="        pass"),
+ dict(id='c17-band-heavier', props=['C17'], file=I,
+      old="""            elif age_group in ("V60", "V65"):
+                return "5.00"
+            elif age_group in ("V70", "V75"):
+                return "4.00"
+            elif _masters_band(age_group) >= 80:
+                return "3.00"
+
+        elif gender == "F":
+            if age_group == "U13":
+                return "2.72\"""", new="""            elif age_group in ("V60", "V65"):
+                return "5.00"
+            elif age_group in ("V70", "V75"):
+                return "4.00"
+            elif _masters_band(age_group) >= 80:
+                return "4.50"
+
+        elif gender == "F":
+            if age_group == "U13":
+                return "2.72\""""),
+ dict(id='c17-format-space', props=['C17'], file=I, old='    formatted = "%s%s" % (generic_event_code, mass)', new='    formatted = "%s %s" % (generic_event_code, mass)'),
+ dict(id='c17-unfix-band', props=['C17'], file=I, count=10, old="_masters_band(age_group) >= ", new='age_group >= "V%d" % '),
+ dict(id='c17-tyrving-key', props=['C17', 'C11'], file=T, old="'200H68cm19m': ['race', [200, 0.5, [11, [36, 34, 32.4]]]],", new="'200H8cm19m': ['race', [200, 0.5, [11, [36, 34, 32.4]]]],"),
+ dict(id='c17-passthrough', props=['C17'], file=I, old='    if generic_event_code not in ["SP", "HT", "JT", "DT", "WT"]:\n        return generic_event_code',
+      new='    if generic_event_code not in ["SP", "HT", "JT", "DT", "WT"]:\n        return generic_event_code.upper()'),
+]
